@@ -17,29 +17,31 @@ structure CEquiv (σ σ' : MState) : Prop where
   locals : ∀ n, lookupS n σ.locals = lookupS n σ'.locals
 
 theorem Inv.congrC {c : Ctx} {σC σC' σIL : MState} (h : Inv c σC σIL) (he : CEquiv σC σC') : Inv c σC' σIL := by
-  obtain ⟨r, i, t⟩ := h
-  refine ⟨⟨he.cur ▸ r.cur, he.new ▸ r.new, he.written ▸ r.written, he.mem ▸ r.mem, he.imm ▸ r.imm,
-    he.pktAddr ▸ r.pktAddr, he.stores ▸ r.stores, ?_⟩, i, ?_⟩
+  obtain ⟨r, i, iv, t, fr⟩ := h
+  refine ⟨⟨he.cur ▸ r.cur, he.new ▸ r.new, he.written ▸ r.written, he.mem ▸ r.mem,
+    he.pktAddr ▸ r.pktAddr, he.stores ▸ r.stores, ?_⟩, i, he.imm ▸ iv, ?_, ?_⟩
   · intro n v hn; rw [← he.locals] at hn; exact r.locals n v hn
   · intro n hn; rw [← he.locals]; exact t n hn
+  · intro l hl; rw [← he.locals]; exact fr l hl
 
 theorem writeLhsC_ok {c : Ctx} {lhs : CExpr} (hl : lhsOK c lhs = true) (σ : MState) {w : Nat} (x : BitVec w) :
     ∃ σ', writeLhsC σ lhs (.bv w x) = .ok σ' := by
   cases lhs with
   | var n t => exact ⟨_, rfl⟩
   | reg n k t => exact ⟨_, rfl⟩
+  | imm l s => exact ⟨_, rfl⟩
   | _ => simp [lhsOK] at hl
 
 /-- writing a target that an expression does not read does not change what the expression sees -/
 theorem writeLhsC_agree {lhs1 : CExpr} {v : Val} {σ σ' : MState} (h : writeLhsC σ lhs1 v = .ok σ')
-    {e : CExpr} (hi : targetIndep lhs1 [e] = true) : AgreeOn (readVars e) (readRegs e) σ σ' := by
+    {e : CExpr} (hi : targetIndep lhs1 [e] = true) : AgreeOn (readVars e) (readRegs e) (readImms e) σ σ' := by
   cases lhs1 with
   | var n t =>
     simp only [writeLhsC, Except.ok.injEq] at h
     subst h
     simp only [targetIndep, List.all_cons, List.all_nil, Bool.and_true, Bool.not_eq_eq_eq_not, Bool.not_true,
       List.contains_eq_mem, decide_eq_false_iff_not] at hi
-    refine ⟨fun _ _ => ⟨rfl, rfl, rfl⟩, rfl, rfl, rfl, ?_⟩
+    refine ⟨fun _ _ => ⟨rfl, rfl, rfl⟩, rfl, fun _ _ => rfl, rfl, ?_⟩
     intro k hk w hw
     have : k ≠ n := fun e' => hi (e' ▸ hk)
     simp only [lookupS_setLocal_ne this]; exact hw
@@ -50,11 +52,23 @@ theorem writeLhsC_agree {lhs1 : CExpr} {v : Val} {σ σ' : MState} (h : writeLhs
       subst h
       simp only [targetIndep, List.all_cons, List.all_nil, Bool.and_true, Bool.not_eq_eq_eq_not, Bool.not_true,
         List.contains_eq_mem, decide_eq_false_iff_not] at hi
-      refine ⟨?_, rfl, rfl, rfl, fun _ _ _ hw => hw⟩
+      refine ⟨?_, rfl, fun _ _ => rfl, rfl, fun _ _ _ hw => hw⟩
       intro ov hov
       have : ov ≠ opvarOf n k := fun e' => hi (e' ▸ hov)
       simp [this]
     | _ => simp [writeLhsC, writeRegC] at h
+  | imm l s =>
+    cases v with
+    | bv w x =>
+      simp only [writeLhsC, Except.ok.injEq] at h
+      subst h
+      simp only [targetIndep, List.all_cons, List.all_nil, Bool.and_true, Bool.not_eq_eq_eq_not, Bool.not_true,
+        List.contains_eq_mem, decide_eq_false_iff_not] at hi
+      refine ⟨fun _ _ => ⟨rfl, rfl, rfl⟩, rfl, ?_, rfl, fun _ _ _ hw => hw⟩
+      intro q hq
+      have : q ≠ l := fun e' => hi (e' ▸ hq)
+      simp [this]
+    | _ => simp [writeLhsC] at h
   | _ => simp [targetIndep] at hi
 
 theorem bv_ofNat_toNat {w : Nat} (x : BitVec w) : Val.bv w (BitVec.ofNat w x.toNat) = Val.bv w x := by
@@ -75,6 +89,11 @@ theorem reread {ms : MacroSem} {lhs : CExpr} (hr : rereadable lhs = true) {σ σ
     simp only [rereadable, Bool.and_eq_true, bne_iff_ne, ne_eq] at hr
     simp only [evalC, readRegC, typeOfC, beq_self_eq_true, ↓reduceIte]
     cases k <;> simp_all <;> exact bv_ofNat_toNat _
+  | imm l s =>
+    simp only [writeLhsC, Except.ok.injEq] at h
+    subst h
+    simp only [evalC, beq_self_eq_true, ↓reduceIte]
+    exact congrArg _ (bv_ofNat_toNat x)
   | _ => simp [rereadable] at hr
 
 /-- writes to two different targets commute (up to `CEquiv`) -/
@@ -143,6 +162,36 @@ theorem writeLhsC_comm {l1 l2 : CExpr} (hi : targetIndep l1 [l2] = true) {σ σa
         | _ => simp [writeLhsC] at h2
       | _ => simp [writeLhsC] at h2
     | _ => simp [writeLhsC, writeRegC] at h1
+  | imm l1 s1 =>
+    cases v1 with
+    | bv w1 x1 =>
+      simp only [writeLhsC, Except.ok.injEq] at h1 h21
+      subst h1; subst h21
+      cases l2 with
+      | var n2 t2 =>
+        simp only [writeLhsC, Except.ok.injEq] at h2 h12
+        subst h2; subst h12
+        exact ⟨rfl, rfl, rfl, rfl, rfl, rfl, rfl, fun _ => rfl⟩
+      | reg n2 k2 t2 =>
+        cases v2 with
+        | bv w x =>
+          simp only [writeLhsC, writeRegC, Except.ok.injEq] at h2 h12
+          subst h2; subst h12
+          exact ⟨rfl, rfl, rfl, rfl, rfl, rfl, rfl, fun _ => rfl⟩
+        | _ => simp [writeLhsC, writeRegC] at h2
+      | imm l2 s2 =>
+        cases v2 with
+        | bv w x =>
+          simp only [writeLhsC, Except.ok.injEq] at h2 h12
+          subst h2; subst h12
+          simp only [targetIndep, readImms, List.all_cons, List.all_nil, Bool.and_true, Bool.not_eq_eq_eq_not,
+            Bool.not_true, List.contains_eq_mem, decide_eq_false_iff_not, List.mem_singleton] at hi
+          refine ⟨rfl, rfl, rfl, rfl, ?_, rfl, rfl, fun _ => rfl⟩
+          funext q
+          by_cases hq1 : q = l1 <;> by_cases hq2 : q = l2 <;> simp_all
+        | _ => simp [writeLhsC] at h2
+      | _ => simp [writeLhsC] at h2
+    | _ => simp [writeLhsC] at h1
   | _ => simp [targetIndep] at hi
 
 theorem readVars_compound (l : CExpr) (op : String) (e : CExpr) :
@@ -156,6 +205,12 @@ theorem readRegs_compound (l : CExpr) (op : String) (e : CExpr) :
   intro n hn
   unfold compoundExpr at hn
   split at hn <;> simp_all [readRegs]
+
+theorem readImms_compound (l : CExpr) (op : String) (e : CExpr) :
+    ∀ n ∈ readImms (compoundExpr l op e), n ∈ readImms l ++ readImms e := by
+  intro n hn
+  unfold compoundExpr at hn
+  split at hn <;> simp_all [readImms]
 
 theorem targetIndep_compound {l1 l2 : CExpr} {op : String} {e : CExpr} (h : targetIndep l1 [l2, e] = true) :
     targetIndep l1 [compoundExpr l2 op e] = true ∧ targetIndep l1 [l2] = true := by
@@ -174,6 +229,15 @@ theorem targetIndep_compound {l1 l2 : CExpr} {op : String} {e : CExpr} (h : targ
       Bool.not_true, List.contains_eq_mem, decide_eq_false_iff_not] at h ⊢
     refine ⟨fun hm => ?_, h.1⟩
     have := readRegs_compound l2 op e _ hm
+    simp only [List.mem_append] at this
+    rcases this with h' | h'
+    · exact h.1 h'
+    · exact h.2 h'
+  | imm l s =>
+    simp only [targetIndep, List.all_cons, List.all_nil, Bool.and_true, Bool.and_eq_true, Bool.not_eq_eq_eq_not,
+      Bool.not_true, List.contains_eq_mem, decide_eq_false_iff_not] at h ⊢
+    refine ⟨fun hm => ?_, h.1⟩
+    have := readImms_compound l2 op e _ hm
     simp only [List.mem_append] at this
     rcases this with h' | h'
     · exact h.1 h'
